@@ -93,3 +93,108 @@ End Pem.
 Theorem open_missing_write_fails pd k :
   open_or_write pd FMissing (Some k) false = (Ok (Some k, Some EWrite), None).
 Proof. reflexivity. Qed.
+
+(* ---------- cli loadPrivKeys / loadPubKeys ---------- *)
+
+Definition gen_ok (p : path_in) : Prop := forall k, snd (fst p) = Some k -> zlen k = 64.
+
+Lemma load_priv_one_sound pd p k : pem_bytes pd -> gen_ok p ->
+  load_priv_one pd p = Ok k -> exists key id, k = Some key /\ id_of_priv key = Ok id.
+Proof.
+  intros Hpd Hg. destruct p as [[st gen] wok]. unfold load_priv_one.
+  destruct (open_key_or_error pd st gen wok Hpd Hg) as (k0 & e & E & H1 & H2). rewrite E.
+  destruct e as [e|].
+  - destruct st as [| | |dat]; try discriminate.
+    destruct (parse_priv_key_pem pd dat) as [[key|]|e'|] eqn:P; try discriminate.
+    intros H; inversion H; subst. destruct (usable_id key (parse_priv_sound _ _ _ P)) as [id Hid]. eauto.
+  - intros H; inversion H; subst. destruct (H1 eq_refl) as (key & id & -> & Hid). eauto.
+Qed.
+
+Lemma load_priv_one_total pd p : pem_bytes pd -> gen_ok p -> load_priv_one pd p <> Panic.
+Proof.
+  intros Hpd Hg. destruct p as [[st gen] wok]. unfold load_priv_one.
+  destruct (open_key_or_error pd st gen wok Hpd Hg) as (k0 & e & E & _ & _). rewrite E.
+  destruct e as [e|]; [|discriminate].
+  destruct st as [| | |dat]; try discriminate.
+  pose proof (parse_priv_key_pem_total pd dat Hpd).
+  destruct (parse_priv_key_pem pd dat) as [[key|]|e'|]; try discriminate; contradiction.
+Qed.
+
+Lemma load_priv_one_bad pd p : bad_path pd p -> forall k, load_priv_one pd p <> Ok k.
+Proof.
+  destruct p as [[st gen] wok]. unfold bad_path, load_priv_one. destruct st as [| | |dat]; cbn [open_or_write fst].
+  - intros [->| ->]; [discriminate|]. destruct gen; discriminate.
+  - discriminate.
+  - discriminate.
+  - intros Hb k. destruct (parse_priv_key_pem pd dat) as [[key|]|e|] eqn:P; cbn [fst]; try rewrite P; try discriminate.
+    exfalso. eapply Hb; eauto.
+Qed.
+
+Lemma seq_all_ok {A} (l : list (outcome A)) xs : seq_all l = Ok xs ->
+  length xs = length l /\ Forall2 (fun o x => o = Ok x) l xs.
+Proof.
+  revert xs; induction l as [|o l IH]; intros xs H; cbn [seq_all] in H.
+  - inversion H; subst. split; [reflexivity|constructor].
+  - destruct o as [x|e|]; cbn [obind] in H; try discriminate.
+    destruct (seq_all l) as [ys|e|] eqn:E; cbn [obind] in H; try discriminate.
+    inversion H; subst. destruct (IH ys eq_refl) as [L F]. split; [cbn; lia|constructor; auto].
+Qed.
+
+Lemma seq_all_no_panic {A} (l : list (outcome A)) : Forall (fun o => o <> Panic) l -> seq_all l <> Panic.
+Proof.
+  induction 1 as [|o l Ho _ IH]; cbn [seq_all]; [discriminate|].
+  destruct o as [x|e|]; cbn [obind]; try discriminate; try contradiction.
+  destruct (seq_all l); cbn [obind]; try discriminate; contradiction.
+Qed.
+
+Lemma seq_all_err {A} (l : list (outcome A)) : Exists (fun o => forall x, o <> Ok x) l ->
+  forall xs, seq_all l <> Ok xs.
+Proof.
+  intros H xs E. apply seq_all_ok in E as [_ F]. induction F as [|o x l xs' Hx _ IH].
+  - inversion H.
+  - inversion H as [? ? Hb|? ? Hb]; subst; [eapply Hb; eauto|auto].
+Qed.
+
+(* loadPrivKeys: an error, or one usable key per path; never a panic, never fewer keys *)
+Theorem load_priv_keys_sound pd ps : pem_bytes pd -> Forall gen_ok ps ->
+  load_priv_keys pd ps <> Panic /\
+  forall ks, load_priv_keys pd ps = Ok ks ->
+    length ks = length ps /\ Forall (fun k => exists key id, k = Some key /\ id_of_priv key = Ok id) ks.
+Proof.
+  intros Hpd Hg. unfold load_priv_keys. split.
+  - apply seq_all_no_panic. apply Forall_forall. intros o Ho. apply in_map_iff in Ho as (p & <- & Hp).
+    apply load_priv_one_total; [exact Hpd|]. eapply Forall_forall in Hg; eauto.
+  - intros ks E. apply seq_all_ok in E as [L F]. rewrite map_length in L. split; [exact L|].
+    clear L. revert ks F. induction ps as [|p ps IH]; intros ks F; cbn [map] in F; inversion F; subst; constructor.
+    + inversion Hg; subst. eapply load_priv_one_sound; eauto.
+    + inversion Hg; subst. apply IH; auto.
+Qed.
+
+(* an empty / garbage / wrong-type / unreadable / directory / unwritable path anywhere in the list is an error *)
+Theorem load_priv_keys_bad pd ps : pem_bytes pd -> Forall gen_ok ps -> Exists (bad_path pd) ps ->
+  exists e, load_priv_keys pd ps = Err e.
+Proof.
+  intros Hpd Hg Hb. destruct (load_priv_keys_sound pd ps Hpd Hg) as [T _].
+  assert (N : forall ks, load_priv_keys pd ps <> Ok ks).
+  { apply seq_all_err. apply Exists_exists in Hb as (p & Hp & Hbad). apply Exists_exists.
+    exists (load_priv_one pd p). split; [apply in_map, Hp|apply load_priv_one_bad, Hbad]. }
+  destruct (load_priv_keys pd ps) as [ks|e|]; [exfalso; eapply N; eauto|eauto|contradiction].
+Qed.
+
+Lemma load_pub_one_total pd p : pem_bytes pd -> gen_ok p -> load_pub_one pd p <> Panic.
+Proof.
+  intros Hpd Hg. destruct p as [[st gen] wok]. unfold load_pub_one.
+  destruct (open_key_or_error pd st gen wok Hpd Hg) as (k0 & e & E & H1 & H2). rewrite E.
+  destruct e as [e|]; [destruct k0; discriminate|].
+  destruct (H1 eq_refl) as (key & id & -> & Hid). unfold id_of_priv in Hid.
+  destruct (priv_get_public key); cbn [obind] in Hid; discriminate.
+Qed.
+
+Theorem load_pub_keys_sound pd ps : pem_bytes pd -> Forall gen_ok ps ->
+  load_pub_keys pd ps <> Panic /\ forall ks, load_pub_keys pd ps = Ok ks -> length ks = length ps.
+Proof.
+  intros Hpd Hg. unfold load_pub_keys. split.
+  - apply seq_all_no_panic. apply Forall_forall. intros o Ho. apply in_map_iff in Ho as (p & <- & Hp).
+    apply load_pub_one_total; [exact Hpd|]. eapply Forall_forall in Hg; eauto.
+  - intros ks E. apply seq_all_ok in E as [L _]. rewrite map_length in L. exact L.
+Qed.
